@@ -202,6 +202,11 @@ def correspondence(ctx):
             if bad:
                 ctx.violation('C03 fails on the implementation: ' + bad, dict(case=c, derived=fn.__name__))
                 return
+    for t in range(ctx.scale(len(pc.REDEF_EDITS), 5 * len(pc.REDEF_EDITS))):
+        c, bad = pc.redefinition_check(ctx.rng, t, lambda p: pc.quiet(p.calc_kG0, silent=True).toarray())
+        ctx.evaluations += 1
+        if bad and ctx.violation('C03 fails on the implementation: calc_kG0 ' + bad, dict(case=c, derived='redefinition')):
+            return
     ctx.cov['input_distribution'] = dist
     ctx.cov['translated_kernels'] = ['%s.%s' % (m, k) for m in ir for k in KERNELS]
 
